@@ -750,6 +750,18 @@ def check_no_value_identity(rep, model: Model, rule: str) -> None:
                 if isinstance(a, ast.Name) and isinstance(b, ast.Name):
                     rep.ok(rule, construct, where, "identity of two objects held in plain names (fast path)", nontrivial=False)
                     continue
+
+                def class_object(x):
+                    # type(v), v.__class__, or a name that resolves to a class: classes are singletons
+                    if isinstance(x, ast.Call) and isinstance(x.func, ast.Name) and x.func.id == "type" and len(x.args) == 1:
+                        return True
+                    if isinstance(x, ast.Attribute) and x.attr == "__class__":
+                        return True
+                    r = model.resolve(fi.module, x) if isinstance(x, (ast.Name, ast.Attribute)) else None
+                    return bool(r and r[0] == "class")
+                if class_object(a) and class_object(b):
+                    rep.ok(rule, construct, where, "identity of two class objects", nontrivial=False)
+                    continue
                 par = parents.get(node)
                 backed = False
                 if isinstance(par, ast.BoolOp) and isinstance(par.op, ast.Or) and isinstance(op, ast.Is):
